@@ -197,6 +197,18 @@ func execute(c *vf.Case, kind zoo.Kind, seq []string) *run11 {
 	}
 	rn := &run11{c: c, kind: kind, b: b, rg: rig.New(b.I), seq: seq, nextID: 1}
 	rn.rg.BlockAllowance = time.Hour
+	// the RTCP writer fails: always, or from some call on (loops must keep running and stop on Close)
+	switch c.R.Intn(4) {
+	case 0:
+		rn.rg.RTCPOut.SetFailAll(&obs.InjErr{ID: 1})
+		c.Add("sequences_with_rtcp_writer_always_failing", 1)
+	case 1:
+		k := c.R.Intn(6)
+		for i := k; i < k+3; i++ {
+			rn.rg.RTCPOut.SetFail(i, &obs.InjErr{ID: 2 + i})
+		}
+		c.Add("sequences_with_rtcp_writer_failing_at_some_calls", 1)
+	}
 	for i := 0; i < 2; i++ {
 		lo := zoo.StreamOpts{SSRC: uint32(1000 * (i + 1)), PT: 96, ClockRate: 90000, Nack: true, PLI: true, TWCCID: 5 * (1 - i), FEC: i == 0, RTX: i == 0}
 		ro := zoo.StreamOpts{SSRC: uint32(3000 + 1000*i), PT: 96, ClockRate: 90000, Nack: true, PLI: true, TWCCID: 5 * (1 - i)}
